@@ -427,10 +427,11 @@ create_unique_client_name (BusRegistry *registry,
        */
       if (next_minor_number <= 0)
         {
+          if (next_major_number == _DBUS_INT_MAX)
+            _dbus_assert_not_reached ("INT_MAX * INT_MAX clients were added");
+
           next_major_number += 1;
           next_minor_number = 0;
-          if (next_major_number <= 0)
-            _dbus_assert_not_reached ("INT_MAX * INT_MAX clients were added");
         }
 
       _dbus_assert (next_major_number > 0);
@@ -450,7 +451,12 @@ create_unique_client_name (BusRegistry *registry,
       if (!_dbus_string_append_int (str, next_minor_number))
         return FALSE;
 
-      next_minor_number += 1;
+      /* after MAJOR.MAXINT comes (MAJOR+1).0; don't rely on signed
+       * overflow to get there */
+      if (next_minor_number == _DBUS_INT_MAX)
+        next_minor_number = 0;
+      else
+        next_minor_number += 1;
 
       /* Check if a client with the name exists */
       if (bus_registry_lookup (registry, str) == NULL)
